@@ -31,15 +31,23 @@ svalue_t apply_ret_value;
 #endif
 extern svalue_t *start_of_stack, *end_of_stack, *sp, *fp;
 extern control_stack_t *control_stack, *csp;
-void reset_interpreter (void);
-/* The stacks are created by the real reset_interpreter() (src/stack.c) with small configured sizes:
- * value stack VM_STACK_SLOTS slots (the last 5 are the driver's slack), control stack VM_FRAMES frames. */
+extern svalue_t const0, const1, const0u;
+/* Typed static stacks (a calloc'd stack is a byte array for CBMC: every tag read back from it is a byte-extract and
+ * the interpreter's switches fork on it).  Same layout as reset_interpreter(): the last 5 slots are the driver's slack. */
+static svalue_t VSTACK[VM_STACK_SLOTS + 8];
+static control_stack_t CSTACK[VM_FRAMES + 2];
 void vm_world_init (void)
 {
   CONFIG_INT (__MAX_CALL_DEPTH__) = VM_FRAMES;
   CONFIG_INT (__EVALUATOR_STACK_SIZE__) = VM_STACK_SLOTS;
   apply_ret_value.type = T_NUMBER;
-  reset_interpreter ();
-  __CPROVER_assume (start_of_stack != 0 && control_stack != 0);
+  const0.type = T_NUMBER; const0.subtype = 0; const0.u.number = 0;
+  const1.type = T_NUMBER; const1.subtype = 0; const1.u.number = 1;
+  const0u.type = T_NUMBER; const0u.subtype = T_UNDEFINED; const0u.u.number = 0;
+  start_of_stack = VSTACK + 4;
+  end_of_stack = start_of_stack + VM_STACK_SLOTS - 5;
+  sp = start_of_stack - 1;
   fp = start_of_stack;
+  control_stack = CSTACK + 1;
+  csp = control_stack - 1;
 }
